@@ -1,0 +1,19 @@
+// Copyright (C) 2024, Ava Labs, Inc. All rights reserved.
+// See the file LICENSE for licensing terms.
+
+//go:build verif
+
+package workers
+
+// VerifShutdownRequested reports whether Stop has already set the shutdown
+// flag of a parallel worker pool. It only exists in builds with the `verif`
+// tag and is used by the verification harness.
+func VerifShutdownRequested(w Workers) bool {
+	pw, ok := w.(*ParallelWorkers)
+	if !ok {
+		return false
+	}
+	pw.lock.RLock()
+	defer pw.lock.RUnlock()
+	return pw.shouldShutdown
+}
